@@ -19,6 +19,8 @@ pub fn schedules(thorough: bool) -> Vec<&'static str> {
         "* * * * *", "*/7 * * * *", "59 23 31 12 *", "0 0 29 2 *", "0 0 31 * *", "0 0 * * 1", "0 0 13 * 5", "0 12 1 1,7 *", "30 4 1,15 * 5", "0 */6 * * *", "15,45 9-17 * * 1-5", "0 0 1 * *",
         // day-of-month lists mixing days that short months lack with days at the start of the month
         "0 0 1,30 * *", "0 12 2,31 * *", "30 6 */5 * *",
+        // day-of-week ranges written up to 7 (Sunday's alias): six days, alone and OR-ed with a day of month
+        "30 6 * * 2-7", "0 0 15 * 3-7",
     ];
     if thorough {
         v.extend([
